@@ -15,11 +15,27 @@ claimed = {
    text="The representation invariant of the replicated IRC state (nickname index consistent and injective under the case mapping, members are owned nicknames of live sessions, a session lists a channel iff the channel lists the session, no empty channel, session/maps well-formed and separated) is proved for NewIRCServer and proved to be preserved by every command handler, ProcessMessage, session creation/deletion and FSM.applyRobustMessage for every entry type; the user-visible consequences (unique nicknames, symmetric membership, members are live) are proved as lemmas over the invariant. The session limit is the proved postcondition of createSessionLocked.",
    note="Assumes the conforming* clauses for services input (SVSNICK onto free nicknames, fresh pseudo-client ids). Not proved: syntactic validity of names (regular expressions are not interpreted) and the channel limit as a global bound (cmdJoin tests it; services JOIN/SVSJOIN create channels without the test).",
    design="§5 C14"),
+ "C17": dict(
+   text="Contracts of getSessionLocked/GetSession/GetAuth (found / gone iff lastProcessed.Id > id / not-yet-seen otherwise, error values passed on by identity), lemmas tying these answers to the newest applied entry (not-yet-seen for ids newer than anything applied; gone only for ids older than it) under the proved invariant that lastProcessed and all session ids never run ahead of the applied entry, the API mapping (404 never for a not-yet-seen session unless this node is the leader; GetMessages answers 500), the expiry sweep (exactly the client sessions idle longer than SessionExpiration, never pseudo-clients: loop invariant over the session map in any iteration order) and the end-of-session postconditions (nickname free, on no channel, marked, removed by MaybeDeleteSession) are all discharged.",
+   note="Assumes increasing entry ids naming earlier sessions (gate-order), one clock read per sweep, one raft.State read per handler. handleGetMessages is checked against its assert@ clauses only. The leader-only timer in main() is not covered.",
+   design="§5 C17"),
+ "C10": dict(
+   text="handlePostMessage proposes or proxies only when the session's marker differs from the request's client message id (assertions at the applyMessageWait/maybeProxyToLeader calls, against the contract of LastPostMessage); UpdateLastClientMessageID sets the marker for every message (including PING) and FSM.applyRobustMessage is proved to set it before ProcessMessage runs and for entries skipped as message of death.",
+   note="Assumes the retry arrives after the first copy was applied on the handling node and that one handler run is not interleaved with an apply for the same session. Survival of the marker across snapshot/restore belongs to C03/C02 and is not part of this check.",
+   design="§5 C10"),
+ "C11": dict(
+   text="HTTP.session is proved to succeed only when the request's non-empty X-Session-Auth equals the stored secret of exactly the named API session; handlePostMessage and handleDeleteSession require that fact (discharged at their call sites in DispatchPublic via sessionOrProxy), handleGetMessages registers, starts and writes nothing before session() succeeded; DispatchPrivateWithoutAuth is only called after user/password matched; a structural check on the SSA call graph shows every handle* method is referenced only from the dispatcher it belongs to.",
+   note="Assumes net/http accessors return what the client sent and the routing set up in main(). handleGetMessages is checked against its assert@ clauses only.",
+   design="§5 C11"),
+ "C16": dict(
+   text="handlePostConfig proposes only TOML that parsed; applyConfig proposes only for the revision currently in force, as revision+1 with the posted body; in FSM.applyRobustMessage every store to the configuration, its revision and the derived session expiration is dominated by a successful parse of a Config entry (store-anchored assertions), the revision afterwards is the entry's or the old one, and no other entry type and no command handler changes the revision (GLINE writes only the ban map inside the replicated configuration).",
+   note="Assumes configuration posts are issued one after another. Survival across snapshot/restore is C03 and not part of this check.",
+   design="§5 C16"),
 }
 na = {
  "C05": "whole-system property over process kills, restarts and leader changes of several OS processes running hashicorp/raft; no function contract within reach expresses it (DESIGN §5 C05)",
 }
-notbuilt = ["C01","C02","C03","C04","C07","C08","C09","C10","C11","C12","C13","C15","C16","C17","C18","C20"]
+notbuilt = ["C01","C02","C03","C04","C07","C08","C09","C12","C13","C15","C18","C20"]
 checks = []
 for pid, c in sorted(claimed.items()):
     checks.append({
